@@ -69,6 +69,20 @@ type Violation struct {
 	Where     string
 }
 
+// PathCase is a completed path made concrete by a model: its inputs and what
+// the engine predicts the native run will observe (translator validation).
+type PathCase struct {
+	Inputs map[string]uint64 `json:"inputs"`
+	Reach  []string          `json:"reach"`
+	Obs    []string          `json:"obs"`
+}
+
+type obsRec struct {
+	tag  string
+	kind byte // 'i' signed int, 'u' unsigned, 'b' bool, 's' string
+	v    Value
+}
+
 type PathSample struct {
 	Decisions string            `json:"decisions"`
 	End       string            `json:"end"`
@@ -98,6 +112,8 @@ type Stats struct {
 	Violations    []*Violation
 	KnownFindings map[string]int
 	Samples       []PathSample
+	Cases         []PathCase
+	casesSeen     int
 	SolverErrors  []string
 	MaxDepth      int
 }
@@ -167,6 +183,7 @@ type Exec struct {
 	trace_ bool
 	traceW io.Writer
 
+	obs    []obsRec
 	kfOpen map[string]bool
 	ext    map[interface{}]interface{} // scratch for intrinsics (json bindings, clocks, ...)
 }
@@ -188,6 +205,7 @@ type Worker struct {
 	mu     sync.Mutex
 	st     Stats
 	pure   map[*ssa.BasicBlock]bool
+	rng    uint64
 }
 
 func (w *Worker) resetSolver() {
@@ -534,11 +552,7 @@ func (e *Exec) freeChoice(name string, n int) int {
 		panic(pathEnd{endEngineBug, "vpChoice with n <= 0"})
 	}
 	if e.concrete {
-		v, ok := e.inputs[name]
-		if !ok {
-			panic(pathEnd{endEngineBug, "concrete mode: no input for choice " + name})
-		}
-		return int(v)
+		return int(e.inputs[name])
 	}
 	alt := 0
 	if d, ok := e.nextPrefix(dFree); ok {
@@ -681,6 +695,7 @@ type Explorer struct {
 	NoFold  bool
 	NoMerge bool
 	MaxViol int
+	NCases  int // sampled completed paths kept for native validation (per worker)
 
 	mu          sync.Mutex
 	outstanding int
@@ -795,7 +810,7 @@ func (x *Explorer) Run() (*Stats, error) {
 		if err != nil {
 			return nil, err
 		}
-		w := &Worker{id: i, x: x, solver: s, ctx: smt.NewCtx()}
+		w := &Worker{id: i, x: x, solver: s, ctx: smt.NewCtx(), rng: uint64(x.Seed)*2654435761 + uint64(i) + 1}
 		w.st.Reach = map[string]int{}
 		w.st.Fns = map[string]bool{}
 		w.st.KnownFindings = map[string]int{}
@@ -881,6 +896,7 @@ func (x *Explorer) Run() (*Stats, error) {
 		tot.Inconclusive = append(tot.Inconclusive, s.Inconclusive...)
 		tot.Violations = append(tot.Violations, s.Violations...)
 		tot.Samples = append(tot.Samples, s.Samples...)
+		tot.Cases = append(tot.Cases, s.Cases...)
 	}
 	x.mu.Lock()
 	if x.stop && x.stopReason != "" {
@@ -962,6 +978,9 @@ func (w *Worker) runPath(it Item) {
 		// the solver mirror may be stale: start afresh
 		w.resetSolver()
 	}
+	if end.kind == endOK && x.NCases > 0 && !e.concrete {
+		w.sampleCase(e)
+	}
 	if len(st.Samples) < 3 && (end.kind == endOK) && len(e.trace) > 0 {
 		var ds []string
 		for _, d := range e.trace {
@@ -976,6 +995,71 @@ func (w *Worker) runPath(it Item) {
 	if len(st.Inconclusive) > 50 {
 		st.Inconclusive = st.Inconclusive[:50]
 	}
+}
+
+// sampleCase keeps a reservoir sample of completed paths as concrete cases.
+func (w *Worker) sampleCase(e *Exec) {
+	st := &w.st
+	st.casesSeen++
+	slot := -1
+	if len(st.Cases) < w.x.NCases {
+		slot = len(st.Cases)
+		st.Cases = append(st.Cases, PathCase{})
+	} else {
+		w.rng = w.rng*6364136223846793005 + 1442695040888963407
+		k := int((w.rng >> 33) % uint64(st.casesSeen))
+		if k < w.x.NCases {
+			slot = k
+		}
+	}
+	if slot < 0 {
+		return
+	}
+	ok := func() (ok bool) {
+		defer func() {
+			if r := recover(); r != nil {
+				ok = false
+			}
+		}()
+		e.ensureModel()
+		return true
+	}()
+	if !ok {
+		st.Cases = st.Cases[:len(st.Cases)-1]
+		return
+	}
+	pc := PathCase{Inputs: e.inputsFromModel(e.model)}
+	for k := range e.reach {
+		pc.Reach = append(pc.Reach, k)
+	}
+	sort.Strings(pc.Reach)
+	for _, o := range e.obs {
+		pc.Obs = append(pc.Obs, e.renderObs(o))
+	}
+	st.Cases[slot] = pc
+}
+
+func (e *Exec) renderObs(o obsRec) string {
+	switch o.kind {
+	case 'b':
+		return fmt.Sprintf("%s=%v", o.tag, smt.Eval(o.v.(*smt.Term), e.model) != 0)
+	case 'i':
+		t := o.v.(*smt.Term)
+		return fmt.Sprintf("%s=%d", o.tag, sextTo64(smt.Eval(t, e.model), t.W))
+	case 'u':
+		return fmt.Sprintf("%s=%d", o.tag, smt.Eval(o.v.(*smt.Term), e.model))
+	case 's':
+		s := o.v.(Str)
+		if s.OpaqueID != 0 {
+			return o.tag + "=<opaque>"
+		}
+		b := make([]byte, len(s.B))
+		for i, t := range s.B {
+			b[i] = byte(smt.Eval(t, e.model))
+		}
+		return fmt.Sprintf("%s=%x", o.tag, b)
+	}
+	return o.tag
 }
 
 // runMain runs fn as the main goroutine of a fresh path.
@@ -1025,4 +1109,27 @@ func (e *Exec) runMain(fn *ssa.Function) (end pathEnd) {
 		return *e.abortEnd
 	}
 	return pathEnd{endOK, ""}
+}
+
+// RunConcrete executes the harness once with fixed inputs (no solver): the
+// concrete-engine mode used to replay counterexamples of stub-based harnesses.
+// It returns how the path ended and, for violations, the failing label.
+func RunConcrete(p *Program, fn *ssa.Function, inputs map[string]uint64, tier int) (end string, label string) {
+	x := &Explorer{P: p, Harness: fn, Tier: tier}
+	x.cond = sync.NewCond(&x.mu)
+	w := &Worker{id: 0, x: x, ctx: smt.NewCtx()}
+	w.st.Reach = map[string]int{}
+	w.st.Fns = map[string]bool{}
+	w.st.KnownFindings = map[string]int{}
+	e := x.newExec(w, Item{})
+	e.concrete = true
+	e.inputs = inputs
+	if e.inputs == nil {
+		e.inputs = map[string]uint64{}
+	}
+	pe := e.runMain(fn)
+	if len(w.st.Violations) > 0 {
+		return "violation", w.st.Violations[0].Label
+	}
+	return pe.kind.String(), pe.msg
 }
